@@ -300,7 +300,7 @@ func init() {
 			}
 			votes[sp.Name] = map[string]interface{}{"members": sp.Members, "candidates": sp.Candidates, "links_down": sp.Down, "rounds": sp.Rounds, "max_lost_messages": sp.MaxLoss,
 				"states": st.States, "transitions": st.Transitions, "new_states_per_depth": st.PerDepth, "distinct_winning_candidacies": len(w), "state_cap_hit": st.Capped, "sample_complete_histories": st.Sample}
-			fmt.Printf("  votes %-36s states=%d transitions=%d depth=%d winners=%d violations=%d%s\n", sp.Name, st.States, st.Transitions, len(st.PerDepth), len(w), st.Violations, map[bool]string{true: " (state cap hit)", false: ""}[st.Capped])
+			fmt.Printf("  votes %-36s states=%d transitions=%d depth=%d winners=%d violations=%d%s\n", sp.Name, st.States, st.Transitions, len(st.PerDepth), len(w), st.Violations, map[bool]string{true: " (state cap hit)", false: ""}[st.Capped]+" "+fmt.Sprint(w))
 		}
 		res.Violations += vViol
 		c.ReportKnown(knownHits)
